@@ -142,8 +142,13 @@ func (m *model) canFail(n *Obj, visiting map[*Obj]bool) bool {
 		return m.canFail(ks[0], visiting)
 	case "TypeName":
 		rule, _ := m.tree.field("Rules").v.(*MapV).m[m.strOf(n)].(*Obj)
-		if rule == nil || visiting[rule] {
+		if rule == nil {
 			return true
+		}
+		if visiting[rule] {
+			// least fixpoint: a failure needs a finite derivation; a path that only
+			// re-enters the rule it came from contributes none
+			return false
 		}
 		visiting[rule] = true
 		defer func() { visiting[rule] = false }()
